@@ -13,7 +13,7 @@ PROPS["C20"] = {
     # the Lean encoders behind the `ce` (codec encode) and `bw` (bit writer) ops are proved equal to the
     # specification's bit strings (gorilla_is_spec, dod/uvarint/uvc theorems, BitsWriter refinement): a
     # differing line is a value sequence on which the implementation is not bit-exact
-    "harness": [{"bin": "h_prim", "args": ["all"], "oracle_prefixes": ["ce =>encoding-not-spec-bits", "bw =>bitwriter-not-spec-bits"]}],
+    "harness": [{"bin": "h_prim", "args": ["all"], "oracle_prefixes": ["ce =>encoding-not-spec-bits", "bw =>bitwriter-not-spec-bits", "br =>bitsreader-not-spec-bits"]}],
     "rule": ("cases = operation sequences on go/pkg BitsWriter/BitsReader and go/pkg/codecs, replayed on the Lean "
              "model; generated from all 65 leading-zero classes x 64 alignments x boundary/random payloads, every "
              "WriteBits width x alignment, random mixed sequences, raw-buffer readers, codec value sequences; a case "
